@@ -84,7 +84,8 @@ type recycleEnv struct {
 	rs *recycleSpec
 	// connections on which at least one whole reply frame arrived: each of them
 	// was served by the engine on a stream taken from its pool
-	served [2]atomic.Int64 // 0 tcp, 1 dot
+	served   [2]atomic.Int64 // 0 tcp, 1 dot
+	schedule [][]string      // per lane: how each cycle's stager ends
 }
 
 func trIndex(tr string) int {
@@ -126,6 +127,9 @@ func runRecycle(r *vlib.Run, rs *recycleSpec) {
 	c0 := st.Counters()
 	r.Note("engine_"+rs.Name, server.VerifC10Stats(st.Server))
 
+	for lane := 0; lane < rs.Lanes; lane++ {
+		env.schedule = append(env.schedule, variantSchedule(r.RandN("recycle-schedule/"+rs.Name, lane), rs.Cycles))
+	}
 	var wg sync.WaitGroup
 	for lane := 0; lane < rs.Lanes; lane++ {
 		lane := lane
@@ -197,12 +201,22 @@ type recConn struct {
 	tc      *net.TCPConn // always the TCP connection
 	ep      *endpoint
 	bytes   atomic.Int64 // bytes read from the connection (after TLS)
-	units   atomic.Int64 // whole frames read
-	firstOK atomic.Bool  // the first frame read was the reply to the first query sent
+	// jmu is held by the reader across judging a frame and recording it below,
+	// so a client woken by the oracle's notification reads a settled record
+	jmu     sync.Mutex
+	units   int  // whole frames read
+	firstOK bool // the first frame read was the reply to the first query sent
 	dead    chan struct{}
 	begin   chan struct{} // closed when the reader may start reading
 	once    sync.Once
-	counted atomic.Bool
+}
+
+// record returns how many whole frames were read and whether the first one
+// answered the first query.
+func (rc *recConn) record() (units int, firstOK bool) {
+	rc.jmu.Lock()
+	defer rc.jmu.Unlock()
+	return rc.units, rc.firstOK
 }
 
 // dialRec opens a connection from src. rcvbuf > 0 sets SO_RCVBUF before the
@@ -266,13 +280,14 @@ func (rc *recConn) reader() {
 			rc.ep.count("stream_partial_final_frame", 1)
 			return
 		}
+		rc.jmu.Lock()
 		q := rc.ep.judge(body, nil)
-		if rc.units.Add(1) == 1 && q != nil && q.Seq == 0 {
-			rc.firstOK.Store(true)
-		}
-		if rc.counted.CompareAndSwap(false, true) {
+		rc.units++
+		if rc.units == 1 {
+			rc.firstOK = q != nil && q.Seq == 0
 			rc.env.served[trIndex(rc.tr)].Add(1)
 		}
+		rc.jmu.Unlock()
 	}
 }
 
@@ -336,33 +351,37 @@ func (g *genCtx) reask(o *query) *query {
 
 // ---------------------------------------------------------------- one cycle
 
+// stagerVariants is how a stager's connection ends; count = how often per 36
+// cycles of a lane. Every lane runs a seeded shuffle of exactly this multiset
+// (repeated when a lane has more cycles), so how often each situation is
+// produced does not depend on the seed.
 var stagerVariants = []struct {
-	name   string
-	weight int
+	name  string
+	count int
 }{
-	{"rst", 30},           // staged behind half a frame, then RST
-	{"close", 8},          // … then close() without reading
-	{"halfclose", 14},     // … then FIN; the staged replies must arrive after it
-	{"stall", 3},          // … then silence until the server's query budget (2 s) ends the session
-	{"neverread-rst", 14}, // replies far beyond the socket buffers, never read, then RST
-	{"shortframe", 18},    // sub-header frame ends the session with whole queries unconsumed behind it
-	{"halfprefix", 8},     // one byte of a prefix: the engine must flush instead of staging
-	{"plain", 5},          // a well-behaved pipelining client
+	{"rst", 11},          // staged behind half a frame, then RST
+	{"close", 3},         // … then close() without reading
+	{"halfclose", 5},     // … then FIN; the staged replies must arrive after it
+	{"stall", 1},         // … then silence until the server's query budget (2 s) ends the session
+	{"neverread-rst", 5}, // replies far beyond the socket buffers, never read, then RST
+	{"shortframe", 6},    // sub-header frame ends the session with whole queries unconsumed behind it
+	{"halfprefix", 3},    // one byte of a prefix: the engine must flush instead of staging
+	{"plain", 2},         // a well-behaved pipelining client
 }
 
-func pickVariant(rng *rand.Rand) string {
-	t := 0
-	for _, v := range stagerVariants {
-		t += v.weight
-	}
-	n := rng.IntN(t)
-	for _, v := range stagerVariants {
-		if n < v.weight {
-			return v.name
+func variantSchedule(rng *rand.Rand, cycles int) []string {
+	var out []string
+	for len(out) < cycles {
+		var block []string
+		for _, v := range stagerVariants {
+			for i := 0; i < v.count; i++ {
+				block = append(block, v.name)
+			}
 		}
-		n -= v.weight
+		rng.Shuffle(len(block), func(i, j int) { block[i], block[j] = block[j], block[i] })
+		out = append(out, block...)
 	}
-	return "rst"
+	return out[:cycles]
 }
 
 func (env *recycleEnv) cycle(lane, cycle int) {
@@ -373,7 +392,7 @@ func (env *recycleEnv) cycle(lane, cycle int) {
 	if rng.IntN(3) == 0 {
 		tr = "dot"
 	}
-	variant := pickVariant(rng)
+	variant := env.schedule[lane][cycle]
 	r.Count("recycle_cycles", 1)
 	env.stager(rng, lane, cycle, tr, variant)
 
@@ -586,14 +605,15 @@ func (env *recycleEnv) successor(rng *rand.Rand, lane, cycle, s int, tr string) 
 			firstBurst = append(firstBurst, g.genQuery(kNormal))
 		}
 		ok := rc.send(firstBurst, nil) == nil && waitAnswered(rc.ep, firstBurst, 4*time.Second, rc.dead)
-		if rc.units.Load() == 0 {
+		units, firstOK := rc.record()
+		if units == 0 {
 			// refused at the connection cap (closed before any byte)
 			rc.finish()
 			r.Count("recycle_successor_unserved", 1)
 			time.Sleep(time.Duration(3+3*attempt) * time.Millisecond)
 			continue
 		}
-		if rc.firstOK.Load() {
+		if firstOK {
 			r.Count("recycle_successor_first_reply_verified", 1)
 			r.Count("recycle_successor_first_reply_verified_"+tr, 1)
 		}
